@@ -70,6 +70,10 @@ example : detProj (.scalar "a") [⟨["a"], true⟩] [] = .one "a" := by decide
 example : detProj (.scalar "a") [⟨["a", "b"], false⟩] [] = .many ["a", "b"] := by decide
 example : detProj (.list ["b", "a"]) [⟨["c"], false⟩, ⟨[], true⟩] ["k"] = .many ["a", "b", "c", "k"] := by decide
 
+/-- a parent that is not a Projection (nor, for Merge, an Index) never triggers a column rewrite — e.g. the groupby
+    above a dropna(subset=…) keeps all the columns it will ask for later (D17) -/
+theorem C04_other_parent (rule : Parent → Option Rw) : onProjection rule .other = none := rfl
+
 /-! ### 1. single-input operators whose rows are decided by key columns (generic part)
 
 `KeyedOp` covers the Elemwise/Blockwise pass-through classes, Filter, dropna, drop_duplicates, sort_values,
